@@ -183,6 +183,14 @@ impl Scenario for Bitrot {
                 e.method = r.pickc(&METHODS);
             }
             e.crc_lie = None;
+            if e.enc.is_none() && rs.chance(1, 6) {
+                // a left-over WinZip-AES record in the LOCAL extra field of an entry that is not encrypted (the
+                // streaming reader parses it): AE-1 or AE-2, naming the entry's real method. It exempts nothing.
+                let mut x = e.extra_local.0.clone();
+                x.extend_from_slice(&[0x01, 0x99, 0x07, 0x00, r.range(1, 2) as u8, 0x00, b'A', b'E', r.range(1, 3) as u8]);
+                x.extend_from_slice(&e.method.to_le_bytes());
+                e.extra_local = Hex(x);
+            }
         }
         if plan_kind == 7 {
             // two stored entries of equal length for the payload swap
@@ -412,14 +420,16 @@ impl Scenario for Bitrot {
                     }
                 }
                 RotPlan::LostCrcPatch => {
-                    if info.crc == 0 {
-                        return Ok(());
+                    for val in [0u32, 0xffff_ffff, !info.crc] {
+                    if val == info.crc {
+                        continue;
                     }
                     let mut img = img0.clone();
-                    img[central_crc_pos as usize..central_crc_pos as usize + 4].fill(0);
-                    img[local_crc_pos as usize..local_crc_pos as usize + 4].fill(0);
+                    img[central_crc_pos as usize..central_crc_pos as usize + 4].copy_from_slice(&val.to_le_bytes());
+                    img[local_crc_pos as usize..local_crc_pos as usize + 4].copy_from_slice(&val.to_le_bytes());
                     *ctx.fired.entry("LostCrcPatch".into()).or_insert(0) += 1;
-                    eval(&img, "CRC fields reverted to zero (lost back-patch)".into(), true, true, ctx)?;
+                    eval(&img, format!("CRC fields set to {val:#010x} (lost back-patch / special value)"), true, true, ctx)?;
+                    }
                 }
             }
             Ok(())
@@ -712,16 +722,37 @@ impl Scenario for AesSc {
                     }
                 }
                 AesPlan::WrongCrc => {
-                    if version == 1 {
-                        if r0.open.is_ok() && r0.err.is_none() && !plain.is_empty() {
-                            return Err(viol("C16/ae1-crc-not-enforced", format!("AE-1 entry with a wrong declared CRC read {} bytes without error", r0.bytes.len())));
+                    // "the CRC is enforced for AE-1 and ignored for AE-2": every lie from a list of plausible
+                    // and special values (zero as written by AE-2 producers, all-ones, complement, one bit off ...)
+                    let real = crc32(&plain);
+                    let mut lies = vec![real ^ 0x5a5a_0001, 0, 0xffff_ffff, !real, real ^ 1, real ^ 0x8000_0000, real.wrapping_add(1), real.swap_bytes(), mix(case_hash, 9) as u32];
+                    lies.dedup();
+                    for (k, lie) in lies.into_iter().enumerate() {
+                        if lie == real {
+                            continue;
                         }
-                        ctx.probe("ae1_wrong_crc_rejected");
-                    } else {
-                        if r0.open.is_err() || r0.err.is_some() || r0.bytes != plain {
-                            return Err(viol("C16/ae2-crc-not-ignored", format!("AE-2 entry with a non-zero/wrong CRC field failed: {:?} {:?}", r0.open, r0.err)));
+                        let r = if k == 0 {
+                            r0.clone()
+                        } else {
+                            let mut l2 = c.layout.clone();
+                            l2.entries[c.target].crc_lie = Some(lie);
+                            let b2 = build(&l2);
+                            let st = shared_from(&b2.image);
+                            ctx.sub_evals += 1;
+                            let mut io = None;
+                            guard(|| read_entry(&st, t, Some(&pw), &c.read, &c.bufs, &mut io))?
+                        };
+                        if version == 1 {
+                            if r.open.is_ok() && r.err.is_none() && !plain.is_empty() {
+                                return Err(viol("C16/ae1-crc-not-enforced", format!("AE-1 entry whose declared CRC is {lie:#010x} (real {real:#010x}) read {} bytes without error", r.bytes.len())));
+                            }
+                            ctx.probe("ae1_wrong_crc_rejected");
+                        } else {
+                            if r.open.is_err() || r.err.is_some() || r.bytes != plain {
+                                return Err(viol("C16/ae2-crc-not-ignored", format!("AE-2 entry whose CRC field is {lie:#010x} failed: {:?} {:?}", r.open, r.err)));
+                            }
+                            ctx.probe("ae2_wrong_crc_ignored");
                         }
-                        ctx.probe("ae2_wrong_crc_ignored");
                     }
                     ctx.sub_sigs.push(mix(case_hash, 2));
                 }
